@@ -103,7 +103,7 @@ def last_one_finalises(ctx):
     ctx.ob(d, 'decrement and return under one self._job_lock region', ok, 'two workers could both (or neither) see zero')
     m = ctx.func('processpool.TransferMonitor.notify_job_complete')
     rets = [x for x in own_nodes(m.node) if isinstance(x, ast.Return)]
-    ok = len(rets) == 1 and norm(rets[0].value) == f'self._transfer_states[{m.params[1]}].decrement_jobs_to_complete()'
+    ok = len(rets) == 1 and norm(q.inline_locals(m, rets[0].value)) == f'self._transfer_states[{m.params[1]}].decrement_jobs_to_complete()'
     ctx.ob(m, 'notify_job_complete returns the decremented count of that transfer', ok, f'{[norm(x.value) for x in rets]}')
 
 
